@@ -24,7 +24,7 @@
 (* corruption is emitted as a *patch instruction* [kind, pos, tau, ...]    *)
 (* that the driver applies to the Python value of v.                       *)
 (***************************************************************************)
-EXTENDS ConGen
+EXTENDS ConGen, CorruptRules
 
 CONSTANT Stages        \* TRUE: PickValue / CorruptAt are enabled (model checking); FALSE: generator only
 
@@ -32,105 +32,7 @@ VARIABLES gStage, gVi, gCi
 cvars == <<gEnv, gT, gDepth, gStage, gVi, gCi>>
 
 ------------------------------------------------------------------------------
-(* what the type checker is specified to accept / reject                    *)
-
-\* Python objects the driver can put in place of a component
-TauUniverse == <<"None", "bool", "int", "float", "str", "bytes", "list", "dict",
-                 "tuple0", "tuple3", "tuple2s", "tuple2b">>
-   \* tuple2s = ("zz", 1): the (str, object) shape of a CHOICE;  tuple2b = (b"\x00", 1): the BIT STRING shape
-
-\* codecs/type_checker.py, one line per class (isinstance tables; bool is an int in Python)
-Accepts(kind, ne) ==
-  CASE kind = "BOOL" -> {"bool"}
-    [] kind = "INT" -> {"int", "bool", "str"}
-    [] kind = "REAL" -> {"float", "int", "bool"}
-    [] kind = "NULL" -> {"None"}
-    [] kind = "BITS" -> {"tuple2b"}
-    [] kind = "OCTS" -> {"bytes"}
-    [] kind \in {"STR", "OID"} -> {"str"}
-    [] kind = "ENUM" -> IF ne THEN {"int", "bool"} ELSE {"str"}
-    [] kind \in {"SEQ", "SET"} -> {"dict"}
-    [] kind \in {"SEQOF", "SETOF"} -> {"list"}
-    [] kind = "CHOICE" -> {"tuple2s"}
-
-\* numeric_enums settings under which tau is rejected for this kind
-RejectedUnder(kind, tau) == SelectSeq(<<FALSE, TRUE>>, LAMBDA ne : tau \notin Accepts(kind, ne))
-
-------------------------------------------------------------------------------
-(* nodes of a value tree                                                    *)
-
-RECURSIVE Nodes(_, _, _)
-\* pre-order sequence of [pos, t : the (unresolved) type of the node, x : its value]
-Nodes(e, T, v) ==
-  LET Bt == Base(e, T)
-      under(st, sub) == [j \in 1..Len(sub) |-> [pos |-> <<st>> \o sub[j].pos, t |-> sub[j].t, x |-> sub[j].x]]
-      kids ==
-        CASE Bt.k \in {"SEQ", "SET"} ->
-               LET ms == AllMembers(Bt)
-               IN Concat([j \in 1..Len(ms) |->
-                    IF v[ms[j].n].p THEN under(MStep(ms[j].n), Nodes(e, ms[j].t, v[ms[j].n].v)) ELSE <<>>])
-          [] Bt.k = "CHOICE" ->
-               LET alts == AllAlts(Bt)
-               IN under(AStep(v.a), Nodes(e, alts[MemberIndex(alts, v.a)].t, v.v))
-          [] Bt.k \in {"SEQOF", "SETOF"} ->
-               Concat([j \in 1..Len(v) |-> under(IStep(j), Nodes(e, Bt.e, v[j]))])
-          [] OTHER -> <<>>
-  IN <<[pos |-> <<>>, t |-> T, x |-> v]>> \o kids
-
-RECURSIVE TypeAt(_, _, _)
-\* the type of the node at pos (positions are type-directed: no value needed)
-TypeAt(e, T, pos) ==
-  IF pos = <<>> THEN T
-  ELSE LET Bt == Base(e, T)
-       IN CASE pos[1].s = "m" -> TypeAt(e, AllMembers(Bt)[MemberIndex(AllMembers(Bt), pos[1].n)].t, Tail(pos))
-            [] pos[1].s = "a" -> TypeAt(e, AllAlts(Bt)[MemberIndex(AllAlts(Bt), pos[1].n)].t, Tail(pos))
-            [] pos[1].s = "i" -> TypeAt(e, Bt.e, Tail(pos))
-
-\* does pos lead to a node of v : T ?
-RECURSIVE ReachesNode(_, _, _, _)
-ReachesNode(e, T, v, pos) ==
-  pos = <<>> \/
-  LET Bt == Base(e, T)
-  IN CASE pos[1].s = "m" ->
-            /\ Bt.k \in {"SEQ", "SET"} /\ HasMember(AllMembers(Bt), pos[1].n) /\ v[pos[1].n].p
-            /\ ReachesNode(e, AllMembers(Bt)[MemberIndex(AllMembers(Bt), pos[1].n)].t, v[pos[1].n].v, Tail(pos))
-       [] pos[1].s = "a" ->
-            /\ Bt.k = "CHOICE" /\ v.a = pos[1].n /\ HasMember(AllAlts(Bt), pos[1].n)
-            /\ ReachesNode(e, AllAlts(Bt)[MemberIndex(AllAlts(Bt), pos[1].n)].t, v.v, Tail(pos))
-       [] pos[1].s = "i" ->
-            /\ Bt.k \in {"SEQOF", "SETOF"} /\ pos[1].i \in 1..Len(v)
-            /\ ReachesNode(e, Bt.e, v[pos[1].i], Tail(pos))
-
-------------------------------------------------------------------------------
-(* corruptions                                                              *)
-
-NoValue == "NULL"
-Cor(kind, pos, tau, nes, member, num, v2, nb) ==
-  [kind |-> kind, pos |-> pos, tau |-> tau, nes |-> nes, member |-> member, num |-> num, v2 |-> v2, nb |-> nb]
-
-BothNe == <<FALSE, TRUE>>
-
-\* a number no item of the ENUMERATED type has
-UnusedNumber(Bt) ==
-  LET items == AllAlts(Bt)
-  IN 1 + FoldLeft(LAMBDA acc, it : IF it.v > acc THEN it.v ELSE acc, 0, items)
-
-\* every corruption applicable at one node
-NodeCorruptions(e, node) ==
-  LET Bt == Base(e, node.t)
-      wrong == Concat([j \in 1..Len(TauUniverse) |->
-                 LET nes == RejectedUnder(Bt.k, TauUniverse[j])
-                 IN IF nes = <<>> THEN <<>>
-                    ELSE <<Cor("type", node.pos, TauUniverse[j], nes, "", 0, NoValue, "")>>])
-      special ==
-        CASE Bt.k = "CHOICE" -> <<Cor("alt", node.pos, "", BothNe, "", 0, NoValue, "")>>
-          [] Bt.k = "ENUM" -> <<Cor("enum", node.pos, "", BothNe, "", UnusedNumber(Bt), NoValue, "")>>
-          [] Bt.k \in {"SEQ", "SET"} ->
-               Concat([j \in 1..Len(Bt.root) |->
-                  IF Bt.root[j].q = "M" THEN <<Cor("missing", node.pos, "", BothNe, Bt.root[j].n, 0, NoValue, "")>>
-                  ELSE <<>>])
-          [] OTHER -> <<>>
-  IN wrong \o special
+(* corruptions of one value (CorruptRules + the constraint variants of ConGen) *)
 
 \* the constraint violations: variants of ConGen that leave the constraint
 ConCorruptions(e, T, v) ==
@@ -144,53 +46,6 @@ Corruptions(e, T, v) ==
 
 CorKey(c) == PosKey(c.pos) \o "#" \o c.kind \o "#" \o c.tau \o c.member \o c.nb
 
-KindName(c) ==
-  CASE c.kind = "type" -> "WrongPyType(" \o c.tau \o ")"
-    [] c.kind = "alt" -> "UnknownAlternative"
-    [] c.kind = "enum" -> "UnknownEnumName"
-    [] c.kind = "missing" -> "MissingMandatory"
-    [] c.kind = "con" -> "ConstraintViolation"
-
-\* Is c a corruption the property quantifies over, for v : T ?  (used by the trace
-\* specification on recorded patches, and as an invariant of the generator)
-Applicable(e, T, v, c) ==
-  /\ ReachesNode(e, T, v, c.pos)
-  /\ LET Bt == Base(e, TypeAt(e, T, c.pos))
-     IN CASE c.kind = "type" -> /\ c.nes # <<>>
-                                /\ \A j \in 1..Len(c.nes) : c.tau \notin Accepts(Bt.k, c.nes[j])
-          [] c.kind = "alt" -> Bt.k = "CHOICE"
-          [] c.kind = "enum" -> Bt.k = "ENUM" /\ \A j \in 1..Len(AllAlts(Bt)) : AllAlts(Bt)[j].v # c.num
-          [] c.kind = "missing" -> /\ Bt.k \in {"SEQ", "SET"}
-                                   /\ \E j \in 1..Len(Bt.root) : Bt.root[j].n = c.member /\ Bt.root[j].q = "M"
-          [] c.kind = "con" -> LET vp == ViolationPaths(e, T, c.v2)
-                               IN vp # <<>> /\ \A j \in 1..Len(vp) : vp[j].pos = c.pos
-
-\* what the specification expects from encode(check_types=True, check_constraints=True)
-Expected(e, T, v, c) ==
-  [cls |-> IF c.kind = "con" THEN "ConstraintsError" ELSE "EncodeError",
-   path |-> NamePath(c.pos)]
-
-(* Named deviation of the path rule.  DevPathRecursiveTypeName: where the   *)
-(* position crosses a reference to a type that is being expanded (a         *)
-(* recursive reference), the name of the referenced type is inserted after  *)
-(* the member name (type_checker.Recursive.encode adds its inner type as a  *)
-(* location; the codecs' Recursive classes do the same).                    *)
-RECURSIVE PathRec(_, _, _, _, _)
-PathRec(e, T, pos, bt, names) ==
-  IF T.k = "REF"
-  THEN IF \E j \in 1..Len(bt) : bt[j] = T.name
-       THEN <<names[T.name]>> \o PathRec(e, e.types[T.name], pos, bt, names)
-       ELSE PathRec(e, e.types[T.name], pos, Append(bt, T.name), names)
-  ELSE IF pos = <<>> THEN <<>>
-  ELSE CASE pos[1].s = "m" ->
-              <<pos[1].n>> \o PathRec(e, AllMembers(T)[MemberIndex(AllMembers(T), pos[1].n)].t, Tail(pos), bt, names)
-         [] pos[1].s = "a" ->
-              <<pos[1].n>> \o PathRec(e, AllAlts(T)[MemberIndex(AllAlts(T), pos[1].n)].t, Tail(pos), bt, names)
-         [] pos[1].s = "i" -> PathRec(e, T.e, Tail(pos), bt, names)
-
-\* names : abstract type name -> the name the type was compiled under
-DevPath(e, top, pos, names) == PathRec(e, e.types[top], pos, <<top>>, names)
-
 ------------------------------------------------------------------------------
 (* the transition system                                                    *)
 
@@ -200,10 +55,21 @@ GoodBase ==
       ok == SelectSeq(vs, LAMBDA x : ConAdmits(ConEnv, gT, x))
   IN SubSeq(ok, 1, Min2(Len(ok), MaxBase))
 
-\* constraints written on references are C11's subject (three open deviations there): not corrupted here
-CorInit == ConInit /\ gT.k # "REF" /\ gStage = "type" /\ gVi = 0 /\ gCi = 0
+\* leaf types: ConGen's (constraints written on references are C11's subject -- three open
+\* deviations there -- and are not corrupted here) plus every kind the type checker knows
+CorPrimTypes == SelectSeq(ConPrimTypes, LAMBDA t : t.k # "REF") \o <<TNull, TOid, TReal>> \o EnumTypes
+CorCarriers == SelectSeq(ConCarriers, LAMBDA t : t.k # "REF")
+               \o <<TBool, TNull, TOid, TReal, TIntN, EnumTypes[2], EnumTypes[6], BitsTypes[1], OctsTypes[1], StrTypes[1]>>
 
-Grow == gStage = "type" /\ ConNext /\ UNCHANGED <<gStage, gVi, gCi>>
+CorInit ==
+  /\ gDepth = 0 /\ gStage = "type" /\ gVi = 0 /\ gCi = 0
+  /\ \E td \in TagDefs : \E j \in 1..Len(CorPrimTypes) :
+       /\ gT = CorPrimTypes[j]
+       /\ gEnv = ConEnvFor(td, CorPrimTypes[j])
+
+Grow == /\ gStage = "type"
+        /\ (ConWrapFor(CorCarriers) \/ NameAndRefer \/ CloseRecursion)
+        /\ UNCHANGED <<gStage, gVi, gCi>>
 
 PickValue ==
   /\ Stages /\ gStage = "type"
